@@ -5,6 +5,8 @@
     html write  <cdata> <indent> <path> <tree>    xot.html5().serialize_write(parameters, node, &mut buf)
     html string_norm <cdata> <indent> <path> <tree>
         xot.html5().serialize_string_with_normalizer(parameters, node, FullwidthNormalizer) (`fullwidthNorm`)
+    html write_norm <cdata> <indent> <path> <tree>
+        xot.html5().serialize_write_with_normalizer(parameters, node, w, FullwidthNormalizer) called directly
 
   <cdata>  : `-` or comma-separated name ids (cdata_section_elements)
   <indent> : `-` (no indentation) | `i` (empty suppress list) | `i<ids>`
@@ -34,6 +36,11 @@ def handleHtml (st : DState) : List String → Option String
       let (t, p) ← parseTreeAt path toks
       some (showHtmlOutcome (htmlCtx st.env pr).env (fun s => "ok " ++ encStr s)
         (serializeHtmlStringN fullwidthNorm st.env pr t p))
+  | "write_norm" :: cd :: ind :: path :: toks => do
+      let pr : HtmlParams := ⟨← parseIndent ind, ← parseNatList cd⟩
+      let (t, p) ← parseTreeAt path toks
+      let r := serializeHtmlWriteN fullwidthNorm st.env pr t p
+      some (showHtmlOutcome (htmlCtx st.env pr).env (fun _ => "ok") r.2 ++ " " ++ encStr r.1)
   | "write" :: cd :: ind :: path :: toks => do
       let pr : HtmlParams := ⟨← parseIndent ind, ← parseNatList cd⟩
       let (t, p) ← parseTreeAt path toks
